@@ -10,6 +10,15 @@ corresponding term of Model/Mueller.v over exact rationals, an angle being its d
 sent to furax as atan2(S, C)/2 + k*pi).  The oracle is an independent NumPy product of per-position
 4x4 Mueller matrices, never the model.
 
+Angle operands are given to furax in every form the code accepts (`ak`): jax arrays, NumPy arrays
+(mutable!) and Python floats; distinct rotation objects may hold the SAME angle array (`aid`).  Every
+case that reduces or composes is observed for PURITY: the unreduced expression (its value on x and the
+angle arrays stored in its operands) is read BEFORE and AFTER `.reduce()`, `.reduce()` is called twice,
+the first reduced operator is evaluated again at the end, and the bits of every angle array (caller
+owned and stored in the rotation objects) are compared with their state at construction.  The model is
+pure, so all evaluations must equal the model's single value.  `seq` cases run several chains and
+factories over SHARED rotation objects / angle arrays within one case.
+
 Comparison: Stokes inputs are small integers; the implementation evaluates cos/sin in floating point, so
 values are compared within TOL64 = 1e-12 under x64 (TOL32 = 2e-5 in the float32 cases), the bound stated
 in each case as `tol`.
@@ -78,6 +87,28 @@ def jangles(arr, x64):
     return m['jnp'].asarray(angle_floats(arr), dtype=m['jnp'].float64 if x64 else m['jnp'].float32)
 
 
+def angle_object(arr, ak, x64):
+    """The angle operand handed to furax: 'jax' array (float64 / float32 with the mode), 'np' a fresh
+    writable NumPy float64 array, 'py' a Python float (scalar shape only)."""
+    np = fx()['np']
+    if ak == 'jax':
+        return jangles(arr, x64)
+    a = angle_floats(arr)
+    if ak == 'np':
+        return np.array(a, dtype=np.float64)
+    if ak == 'py':
+        assert a.shape == ()
+        return float(a)
+    raise ValueError(ak)
+
+
+def ang_bits(a):
+    """dtype, shape and bytes of an angle operand (purity is bit-exact)."""
+    np = fx()['np']
+    arr = np.asarray(a)
+    return [str(arr.dtype), list(arr.shape), arr.tobytes().hex()]
+
+
 def arr_coq(arr) -> str:
     cs = clist(arr['cs'], lambda t: f'qang ({t[0]})%Z {t[1]}%Z ({t[2]})%Z {t[3]}%Z')
     return f'(mkArr {clist(arr["shape"], lib.cnat)} {cs})'
@@ -134,24 +165,90 @@ def try_value(f):
         return None
 
 
-def build_ops(case, objs):
-    """Real operators of a chain description; equal `id` = the same QURotationOperator object."""
+class World:
+    """The live objects of one case: caller-owned angle operands by `aid`, QURotationOperator objects by
+    `id`, labels of objects for the skeletons, and the bit snapshots taken when each object was made."""
+
+    def __init__(self, case):
+        self.case = case
+        self.x64 = case.get('x64', True)
+        self.st = structure(case['stokes'], case['shape'], self.x64)
+        self.arrs: dict = {}
+        self.objs: dict = {}
+        self.ids: dict = {}
+        self.watch: dict = {}  # label -> (getter, bits at construction)
+
+    def snapshot(self, label, getter):
+        if label not in self.watch:
+            self.watch[label] = (getter, ang_bits(getter()))
+
+    def array(self, aid, ang, ak):
+        if aid not in self.arrs:
+            self.arrs[aid] = angle_object(ang, ak, self.x64)
+            self.snapshot(f'array{aid}', lambda: self.arrs[aid])
+        return self.arrs[aid]
+
+    def rotation(self, d):
+        m = fx()
+        rid = d['id']
+        if rid not in self.objs:
+            a = self.array(d.get('aid', rid), d['ang'], d.get('ak', 'jax'))
+            rot = m['qu'].QURotationOperator(a, self.st)
+            self.objs[rid] = rot
+            self.ids[id(rot)] = rid
+            self.snapshot(f'rot{rid}.angles', lambda: rot.angles)
+        return self.objs[rid]
+
+    def mutated(self):
+        return sorted(label for label, (get, bits) in self.watch.items() if ang_bits(get()) != bits)
+
+
+def build_ops(ops, w):
+    """Real operators of a chain description; equal `id` = the same QURotationOperator object, equal
+    `aid` = the same angle operand object (possibly held by several rotation objects)."""
     m = fx()
-    x64 = case.get('x64', True)
-    st = structure(case['stokes'], case['shape'], x64)
     out = []
-    for d in case['ops']:
+    for d in ops:
         t = d['t']
         if t in ('R', 'RT'):
-            if d['id'] not in objs:
-                objs[d['id']] = m['qu'].QURotationOperator(jangles(d['ang'], x64), st)
-            rot = objs[d['id']]
+            rot = w.rotation(d)
             out.append(rot if t == 'R' else rot.T)
         elif t == 'H':
-            out.append(m['hwp'].HWPOperator(st))
+            out.append(m['hwp'].HWPOperator(w.st))
         else:
-            out.append(m['pol'].LinearPolarizerOperator(st))
+            out.append(m['pol'].LinearPolarizerOperator(w.st))
     return out
+
+
+def build_step(step, w, k):
+    """The real operator of one step: a chain `{'ops': [...]}` (CompositionOperator of the operands) or a
+    factory `{'which': 'hwp'|'pol'|'rot', 'ang': arr|None, 'ak':, 'aid':}` (the create classmethod)."""
+    m = fx()
+    case = w.case
+    if 'ops' in step:
+        return m['core'].CompositionOperator(build_ops(step['ops'], w))
+    jnp = m['jnp']
+    dt = jnp.float64 if w.x64 else jnp.float32
+    ang = None if step['ang'] is None else w.array(step.get('aid', 1), step['ang'], step.get('ak', 'jax'))
+    which = step['which']
+    shape = tuple(case['shape'])
+    if which == 'hwp':
+        op = m['hwp'].HWPOperator.create(shape, dt, case['stokes'], angles=ang)
+    elif which == 'pol':
+        op = m['pol'].LinearPolarizerOperator.create(shape, dt, case['stokes'], angles=ang)
+    else:
+        op = m['qu'].QURotationOperator.create(shape, dt, case['stokes'], angles=ang)
+    # identities: the rotation objects of the created expression, numbered in order of first occurrence
+    leaves = op.operands if isinstance(op, m['core'].CompositionOperator) else [op]
+    n = 0
+    for o in leaves:
+        r = o.operator if type(o) is m['qu'].QURotationTransposeOperator else o
+        if type(r) is m['qu'].QURotationOperator and id(r) not in w.ids:
+            n += 1
+            w.ids[id(r)] = n
+            w.objs[('step', k, n)] = r  # keep it alive: labels are Python ids
+            w.snapshot(f'step{k}.rot{n}.angles', lambda r=r: r.angles)
+    return op
 
 
 def skeleton(op, ids):
@@ -183,34 +280,64 @@ def skeleton(op, ids):
     return [[type(op).__name__, 0, [], []]]
 
 
-def observe_operator(op, x, ids):
-    red = None
-    err = None
+def try_reduce(op):
     try:
-        red = op.reduce()
+        return op.reduce(), None
     except BaseException as e:
         if isinstance(e, (KeyboardInterrupt, SystemExit)):
             raise
-        err = type(e).__name__
-    obs = {
-        'before': try_value(lambda: op.mv(x)),
-        'reduced': None if red is None else skeleton(red, ids),
-        'after': None if red is None else try_value(lambda: red.mv(x)),
-    }
-    if err:
-        obs['reduce_error'] = err
-    return obs
+        return None, type(e).__name__
+
+
+def case_steps(case):
+    kind = case['kind']
+    if kind == 'chain':
+        return [{'ops': case['ops']}]
+    if kind == 'factory':
+        return [{'which': case['which'], 'ang': case['ang'], 'ak': case.get('ak', 'jax'), 'aid': 1}]
+    return case['steps']
+
+
+def observe_steps(case, x):
+    """All steps are built and evaluated first, then each is reduced (in order), then every unreduced
+    operator is evaluated AGAIN, reduced a second time, and the first reduced operator re-evaluated."""
+    w = World(case)
+    steps = case_steps(case)
+    ops = [build_step(st, w, k) for k, st in enumerate(steps)]
+    ids = w.ids
+    res = [{} for _ in steps]
+    for r, op in zip(res, ops):
+        r['expr'] = skeleton(op, ids)
+        r['before'] = try_value(lambda: op.mv(x))
+    reds = []
+    for r, op in zip(res, ops):
+        red, err = try_reduce(op)
+        reds.append(red)
+        r['reduced'] = None if red is None else skeleton(red, ids)
+        r['after'] = None if red is None else try_value(lambda: red.mv(x))
+        if err:
+            r['reduce_error'] = err
+    for r, op, red in zip(res, ops, reds):
+        r['again'] = try_value(lambda: op.mv(x))
+        r['expr_again'] = skeleton(op, ids)
+        red2, err2 = try_reduce(op)
+        r['reduced2'] = None if red2 is None else skeleton(red2, ids)
+        r['after2'] = None if red2 is None else try_value(lambda: red2.mv(x))
+        if err2:
+            r['reduce_error2'] = err2
+    for r, red in zip(res, reds):
+        r['after1_again'] = None if red is None else try_value(lambda: red.mv(x))
+    return res, w.mutated()
 
 
 def run_case(case):
-    m = fx()
     x64 = case.get('x64', True)
     set_x64(x64)
     kind = case['kind']
     x = stokes_value(case['stokes'], case['shape'], case['x'], x64)
     if kind == 'mv':
-        objs = {}
-        (op,) = build_ops(case, objs)
+        w = World(case)
+        (op,) = build_ops(case['ops'], w)
         obs = {'y': try_value(lambda: op.mv(x))}
         if case['ops'][0]['t'] == 'R':
             # rot.T.T is rot, rot.I is rot.T (the orthogonal tag): observed through mv
@@ -219,35 +346,16 @@ def run_case(case):
             obs['t'] = try_value(lambda: op.T.mv(x))
         if case['ops'][0]['t'] == 'H':
             obs['t'] = try_value(lambda: op.T.mv(x))
+        obs['y_again'] = try_value(lambda: op.mv(x))
+        obs['mutated'] = w.mutated()
         return obs
-    if kind == 'chain':
-        objs = {}
-        ops = build_ops(case, objs)
-        ids = {id(o): i for i, o in objs.items()}
-        op = m['core'].CompositionOperator(ops)
-        return observe_operator(op, x, ids)
-    if kind == 'factory':
-        jnp = m['jnp']
-        dt = jnp.float64 if x64 else jnp.float32
-        ang = None if case['ang'] is None else jangles(case['ang'], x64)
-        which = case['which']
-        shape = tuple(case['shape'])
-        if which == 'hwp':
-            op = m['hwp'].HWPOperator.create(shape, dt, case['stokes'], angles=ang)
-        elif which == 'pol':
-            op = m['pol'].LinearPolarizerOperator.create(shape, dt, case['stokes'], angles=ang)
-        else:
-            op = m['qu'].QURotationOperator.create(shape, dt, case['stokes'], angles=ang)
-        # identities: the rotation objects of the created expression, in order of first occurrence
-        ids = {}
-        leaves = op.operands if isinstance(op, m['core'].CompositionOperator) else [op]
-        for o in leaves:
-            r = o.operator if type(o) is m['qu'].QURotationTransposeOperator else o
-            if type(r) is m['qu'].QURotationOperator and id(r) not in ids:
-                ids[id(r)] = len(ids) + 1
-        obs = observe_operator(op, x, ids)
-        obs['created'] = skeleton(op, ids)
-        return obs
+    if kind in ('chain', 'factory'):
+        (res,), mutated = observe_steps(case, x)
+        res['mutated'] = mutated
+        return res
+    if kind == 'seq':
+        res, mutated = observe_steps(case, x)
+        return {'steps': res, 'mutated': mutated}
     raise ValueError(kind)
 
 
@@ -365,6 +473,68 @@ def dec_ops(v):
     return [dec_op(o) for o in v['a'][0]]
 
 
+def dec_step(v):
+    """(map show_op l, x_observe sh l x) -> the observation of one step; the model is pure, so every
+    repeated evaluation of the implementation is compared with the model's single value."""
+    created, (b, r, a) = v
+    e = [dec_op(o) for o in created]
+    B, R, A = dec_value(b), dec_ops(r), dec_value(a)
+    return {'expr': e, 'expr_again': e, 'before': B, 'again': B, 'reduced': R, 'reduced2': R,
+            'after': A, 'after2': A, 'after1_again': A}
+
+
+def step_ops(step):
+    """The explicit product a step stands for (the factories: rot.T @ hwp @ rot, polarizer @ rot, rot)."""
+    if 'ops' in step:
+        return step['ops']
+    which, ang = step['which'], step['ang']
+    R = {'t': 'R', 'id': 1, 'ang': ang}
+    if which == 'hwp':
+        return [{'t': 'H'}] if ang is None else [dict(R, t='RT'), {'t': 'H'}, R]
+    if which == 'pol':
+        return [{'t': 'P'}] if ang is None else [{'t': 'P'}, R]
+    return [R]
+
+
+def step_name(step):
+    if 'ops' in step:
+        return 'chain ' + ','.join(d['t'] + (str(d['id']) if 'id' in d else '') + (f'[{d.get("ak", "jax")}{d.get("aid", d["id"])}]' if 'id' in d else '')
+                                   for d in step['ops'])
+    return f'{step["which"]}.create(angles={"None" if step["ang"] is None else step.get("ak", "jax") + str(step.get("aid", 1))})'
+
+
+def expected_expr(ops):
+    """Skeleton of the product as described by the case (exact angles of the case, not of the code)."""
+    out = []
+    for d in ops:
+        if d['t'] in ('R', 'RT'):
+            cs = [[cn / cd, sn / sd] for (cn, cd, sn, sd) in d['ang']['cs']]
+            out.append([TAGS[d['t']], d['id'], list(d['ang']['shape']), cs])
+        else:
+            out.append([TAGS[d['t']], 0, [], []])
+    return out
+
+
+def close_expr(a, b, tol, with_ids=True):
+    if a is None or b is None:
+        return a is None and b is None
+    if len(a) != len(b):
+        return False
+    for u, v in zip(a, b):
+        if u[0] != v[0] or (with_ids and u[1] != v[1]) or list(u[2]) != list(v[2]) or len(u[3]) != len(v[3]):
+            return False
+        for p, q in zip(u[3], v[3]):
+            if abs(float(p[0]) - float(q[0])) > tol or abs(float(p[1]) - float(q[1])) > tol:
+                return False
+    return True
+
+
+def brief(expr):
+    if expr is None:
+        return None
+    return [[e[0], e[1], e[2], [[round(float(c), 6), round(float(s_), 6)] for c, s_ in e[3]]] for e in expr]
+
+
 # ----------------------------------------------------------------------------------------------
 # generators
 
@@ -408,6 +578,10 @@ class Check(PropertyCheck):
         'classes (no identity/homothety operand; the other registered binary rules do not match these classes); '
         'registry order InverseBinary < QURotation < QURotationHWP < LinearPolarizerHWP (C01/C07 check the registry itself)',
         'correspondence harness harness/c15.py (case builders for both sides, tolerance snapping, NumPy oracle)',
+        'purity (no in-place update of operands): the model is a pure function, so the implementation evaluated before / after '
+        'reduce(), reduced twice, and across the steps of a sequence over shared objects is compared with the ONE model value per '
+        'step; that the angle operands are bitwise unchanged (NumPy arrays, caller-owned or stored in rotation objects) is an '
+        'implementation-side observation (`mutated`), the model has no notion of object state beyond the rotation identifiers',
         'Props/C15Real.v only (the instance K = R, c = cos(2.), s = sin(2.)): the standard library axioms of the reals '
         'ClassicalDedekindReals.sig_forall_dec, ClassicalDedekindReals.sig_not_dec, '
         'FunctionalExtensionality.functional_extensionality_dep; every theorem of Props/C15.v is closed under the global context',
@@ -437,25 +611,76 @@ class Check(PropertyCheck):
             c['x'] = self.rand_x(STOKES_N[stokes], prod(shape))
         return c
 
-    def chain_case(self, pattern, stokes, shape, mode, share=0.3, x64=True, turns=False, key=None):
+    def pick_ak(self, ashape, akp):
+        """How the angle operand is given to furax: akp 'jax' / 'np' / 'py' fixed ('py' only for scalars),
+        'mix': NumPy 45 %, jax 40 %, Python float 15 % of the scalar ones."""
+        if akp == 'py':
+            return 'py' if tuple(ashape) == () else 'np'
+        if akp != 'mix':
+            return akp
+        r = self.rng.random()
+        if tuple(ashape) == () and r < 0.15:
+            return 'py'
+        return 'np' if r < 0.55 else 'jax'
+
+    def chain_case(self, pattern, stokes, shape, mode, share=0.3, x64=True, turns=False, key=None, akp='mix', alias=0.2):
         """pattern: tuple over 'R','RT','H','P'; rotations draw angle arrays of random admissible shapes; with
-        probability `share` a rotation reuses an earlier QURotationOperator object (same identity and angles)."""
+        probability `share` a rotation reuses an earlier QURotationOperator object (same identity and angles);
+        with probability `alias` a NEW rotation object is built on an earlier angle operand (same array object)."""
         rng = self.rng
         ops = []
         objs = []
+        arrays = []
         for t in pattern:
             if t in ('R', 'RT'):
                 if objs and rng.random() < share:
-                    oid, ang = rng.choice(objs)
+                    oid, aid, ak, ang = rng.choice(objs)
                 else:
-                    ang = self.rand_arr(rng.choice(SHAPES[tuple(shape)]), mode, turns)
+                    if arrays and rng.random() < alias:
+                        aid, ak, ang = rng.choice(arrays)
+                    else:
+                        ashape = rng.choice(SHAPES[tuple(shape)])
+                        ang = self.rand_arr(ashape, mode, turns)
+                        aid = len(arrays) + 1
+                        ak = self.pick_ak(ashape, akp)
+                        arrays.append((aid, ak, ang))
                     oid = len(objs) + 1
-                    objs.append((oid, ang))
-                ops.append({'t': t, 'id': oid, 'ang': ang})
+                    objs.append((oid, aid, ak, ang))
+                ops.append({'t': t, 'id': oid, 'aid': aid, 'ak': ak, 'ang': ang})
             else:
                 ops.append({'t': t})
         return self.mk_case('chain', stokes, shape, ops=ops, pattern=','.join(pattern), x64=x64,
                             key=key or ('chain:' + ','.join(pattern)))
+
+    def seq_case(self, stokes, shape, mode, akp, nsteps, x64=True, key='seq'):
+        """Several chains and factories over a SHARED pool: 1-3 angle operands, rotation objects built on them
+        (two objects may hold the same operand), 2-5 steps each a chain of length 1-4 over the pool (optional
+        polariser in front) or a factory called with a pool operand."""
+        rng = self.rng
+        narr = rng.randint(1, 3)
+        arrays = []
+        for aid in range(1, narr + 1):
+            ashape = rng.choice(SHAPES[tuple(shape)])
+            arrays.append((aid, self.pick_ak(ashape, akp), self.rand_arr(ashape, mode, turns=(rng.random() < 0.2))))
+        rots = [(i, arrays[i - 1]) for i in range(1, narr + 1)]
+        for _ in range(rng.randint(0, 2)):
+            rots.append((len(rots) + 1, rng.choice(arrays)))
+        steps = []
+        for _ in range(nsteps):
+            if rng.random() < 0.25:
+                aid, ak, ang = rng.choice(arrays)
+                steps.append({'which': rng.choice(('hwp', 'pol', 'rot')), 'aid': aid, 'ak': ak, 'ang': ang})
+                continue
+            ops = [{'t': 'P'}] if rng.random() < 0.2 else []
+            n = rng.randint(1, 4)
+            for _ in range(n):
+                if rng.random() < 0.25:
+                    ops.append({'t': 'H'})
+                else:
+                    oid, (aid, ak, ang) = rng.choice(rots)
+                    ops.append({'t': rng.choice(('R', 'RT')), 'id': oid, 'aid': aid, 'ak': ak, 'ang': ang})
+            steps.append({'ops': ops})
+        return self.mk_case('seq', stokes, shape, steps=steps, x64=x64, key=key)
 
     def cases(self):
         quick = self.tier == 'quick'
@@ -472,12 +697,13 @@ class Check(PropertyCheck):
                     for mode in ('axis', 'gen'):
                         for t in ('R', 'RT'):
                             arr = self.rand_arr(ashape, mode, turns=(mode == 'gen' and rng.random() < 0.5))
-                            cases.append(self.mk_case('mv', stokes, shape, ops=[{'t': t, 'id': 1, 'ang': arr}], key=f'mv:{t}'))
+                            ak = self.pick_ak(ashape, 'mix')
+                            cases.append(self.mk_case('mv', stokes, shape, ops=[{'t': t, 'id': 1, 'ak': ak, 'ang': arr}], key=f'mv:{t}'))
         # every multiple of pi/4 in [-2pi, 2pi] as a scalar angle, exact values
         for k in range(-8, 9):
             arr = {'shape': [], 'cs': [list(AXIS[k % 4])], 'turns': [(k - (k % 4)) // 4]}
             for t in ('R', 'RT'):
-                cases.append(self.mk_case('mv', 'IQUV', (3,), ops=[{'t': t, 'id': 1, 'ang': arr}], key=f'mv:{t}'))
+                cases.append(self.mk_case('mv', 'IQUV', (3,), ops=[{'t': t, 'id': 1, 'ak': ('jax', 'np', 'py')[k % 3], 'ang': arr}], key=f'mv:{t}'))
 
         # -- B. chains over {R, RT, H} with an optional polariser in front ------------------------------
         maxlen = 4 if quick else 5
@@ -509,19 +735,30 @@ class Check(PropertyCheck):
         ]
         for pat in same:
             for stokes in kinds:
-                for mode in ('gen', 'axis'):
+                for mode, akp in (('gen', 'np'), ('axis', 'mix'), ('gen', 'jax')):
                     shape = rng.choice(shapes[1:3])
                     angs = {}
                     ops = []
                     for t, i in pat:
                         if t in ('R', 'RT'):
                             if i not in angs:
-                                angs[i] = self.rand_arr(rng.choice(SHAPES[shape]), mode)
-                            ops.append({'t': t, 'id': i, 'ang': angs[i]})
+                                ashape = rng.choice(SHAPES[shape])
+                                angs[i] = (self.pick_ak(ashape, akp), self.rand_arr(ashape, mode))
+                            ops.append({'t': t, 'id': i, 'aid': i, 'ak': angs[i][0], 'ang': angs[i][1]})
                         else:
                             ops.append({'t': t})
                     name = ','.join(f'{t}{i or ""}' for t, i in pat)
                     cases.append(self.mk_case('chain', stokes, shape, ops=ops, pattern=name, key='same:' + name))
+        # every word of length <= 3 (quick: <= 2 on every kind, 3 on a seeded kind) with ALL operands NumPy arrays
+        # (resp. Python floats), once with distinct angle operands and once with ONE operand shared by all the rotation objects
+        for pat in patterns:
+            if len(pat) > 3 or not any(t in ('R', 'RT') for t in pat):
+                continue
+            for stokes in (kinds if (len(pat) <= 2 or not quick) else [rng.choice(kinds[1:])]):
+                for akp, alias in (('np', 0.0), ('np', 1.0), ('py', 0.0)):
+                    shape = () if akp == 'py' else rng.choice(shapes[1:3])
+                    cases.append(self.chain_case(pat, stokes, shape, 'gen', share=0.0, akp=akp, alias=alias,
+                                                 key=f'{akp}{"-aliased" if alias else ""}:' + ','.join(pat)))
         # longer chains, sampled
         for _ in range(40 if quick else 600):
             n = rng.randint(5, 6 if quick else 8)
@@ -540,12 +777,53 @@ class Check(PropertyCheck):
                 for which in ('hwp', 'pol'):
                     cases.append(self.mk_case('factory', stokes, shape, which=which, ang=None, key=f'factory:{which}'))
                 for ashape in ashapes:
-                    for mode in ('gen', 'axis'):
+                    for mode, akp in (('gen', 'jax'), ('gen', 'np'), ('axis', 'mix')):
                         if quick and mode == 'axis' and rng.random() < 0.5:
                             continue
                         for which in ('hwp', 'pol', 'rot'):
                             arr = self.rand_arr(ashape, mode, turns=(rng.random() < 0.3))
-                            cases.append(self.mk_case('factory', stokes, shape, which=which, ang=arr, key=f'factory:{which}'))
+                            cases.append(self.mk_case('factory', stokes, shape, which=which, ang=arr,
+                                                      ak=self.pick_ak(ashape, akp), key=f'factory:{which}'))
+                if () in ashapes:
+                    for which in ('hwp', 'pol', 'rot'):
+                        cases.append(self.mk_case('factory', stokes, shape, which=which, ang=self.rand_arr((), 'gen', turns=True),
+                                                  ak='py', key=f'factory:{which}'))
+
+        # -- E. operation sequences on shared rotation objects / shared angle operands -----------------
+        # systematic: two rotation objects a, b (NumPy operands; distinct arrays or ONE array), two chains over them
+        kk = 0
+        for t1, t2, t3, t4 in itertools.product(('R', 'RT'), repeat=4):
+            for shared in (False, True):
+                stokes = kinds[1:][kk % 3]
+                kk += 1
+                shape = shapes[1 + kk % 2]
+                ash = rng.choice(SHAPES[shape])
+                A = (1, 'np', self.rand_arr(ash, 'gen'))
+                B = A if shared else (2, 'np', self.rand_arr(rng.choice(SHAPES[shape]), 'gen'))
+
+                def rot(t, oid, arr):
+                    return {'t': t, 'id': oid, 'aid': arr[0], 'ak': arr[1], 'ang': arr[2]}
+
+                steps = [{'ops': [rot(t1, 1, A), rot(t2, 2, B)]}, {'ops': [rot(t3, 2, B), rot(t4, 1, A)]}]
+                cases.append(self.mk_case('seq', stokes, shape, steps=steps, key='seq:two-chains'))
+        # a chain and a factory, two factories, on ONE NumPy operand
+        for which in ('hwp', 'pol', 'rot'):
+            for stokes in kinds[1:]:
+                shape = rng.choice(shapes[1:3])
+                A = (1, 'np', self.rand_arr(rng.choice(SHAPES[shape]), 'gen'))
+                f = {'which': which, 'aid': 1, 'ak': 'np', 'ang': A[2]}
+                for t1, t2 in itertools.product(('R', 'RT'), repeat=2):
+                    ch = {'ops': [{'t': t1, 'id': 1, 'aid': 1, 'ak': 'np', 'ang': A[2]}, {'t': t2, 'id': 2, 'aid': 1, 'ak': 'np', 'ang': A[2]}]}
+                    cases.append(self.mk_case('seq', stokes, shape, steps=[ch, f] if rng.random() < 0.5 else [f, ch], key='seq:chain+factory'))
+                for which2 in ('hwp', 'pol', 'rot'):
+                    cases.append(self.mk_case('seq', stokes, shape, steps=[f, dict(f, which=which2)], key='seq:two-factories'))
+        # sampled
+        for _ in range(150 if quick else 1500):
+            shape = rng.choice(shapes)
+            cases.append(self.seq_case(rng.choice(kinds), shape, rng.choice(('gen', 'axis', 'mix')),
+                                       rng.choice(('np', 'mix', 'mix')), rng.randint(2, 5)))
+        for _ in range(15 if quick else 100):
+            cases.append(self.seq_case(rng.choice(kinds[1:]), (2, 3), 'mix', 'mix', rng.randint(2, 4), x64=False, key='seq:f32'))
 
         # -- D. float32 mode (x64 off), tolerance 2e-5 ---------------------------------------------
         pats32 = [p for p in patterns if len(p) <= (2 if quick else 3)]
@@ -563,6 +841,22 @@ class Check(PropertyCheck):
         case['_raw'] = obs
         return obs
 
+    def step_term(self, case, step):
+        sh = clist(case['shape'], lib.cnat)
+        x = x_coq(case['x'])
+        if 'ops' in step:
+            l = clist(step['ops'], op_coq)
+        else:
+            a = 'None' if step['ang'] is None else f'(Some {arr_coq(step["ang"])})'
+            which = step['which']
+            if which == 'hwp':
+                l = f'(hwp_create 1%N {a})'
+            elif which == 'pol':
+                l = f'(pol_create 1%N {a})'
+            else:
+                l = f'(rot_create 1%N {arr_coq(step["ang"])})'
+        return f'(let l : list xpop := {l} in (map show_op l, x_observe {sh} l {x}))'
+
     def model_term(self, case):
         sh = clist(case['shape'], lib.cnat)
         x = x_coq(case['x'])
@@ -574,18 +868,8 @@ class Check(PropertyCheck):
                 tr = op_coq(dict(case['ops'][0], t='RT'))
                 return (f'(show_val (x_mv {sh} {op} {x}), show_val (x_mv {sh} {tr} {x}))')
             return f'(show_val (x_mv {sh} {op} {x}), 0)'
-        if kind == 'chain':
-            return f'(x_observe {sh} {clist(case["ops"], op_coq)} {x})'
-        if kind == 'factory':
-            a = 'None' if case['ang'] is None else f'(Some {arr_coq(case["ang"])})'
-            which = case['which']
-            if which == 'hwp':
-                l = f'(hwp_create 1%N {a})'
-            elif which == 'pol':
-                l = f'(pol_create 1%N {a})'
-            else:
-                l = f'(rot_create 1%N {arr_coq(case["ang"])})'
-            return f'(map show_op {l}, x_observe {sh} {l} {x})'
+        if kind in ('chain', 'factory', 'seq'):
+            return clist([self.step_term(case, st) for st in case_steps(case)])
         raise ValueError(kind)
 
     def decode(self, case, v):
@@ -593,22 +877,26 @@ class Check(PropertyCheck):
         if kind == 'mv':
             y, yt = v
             t = case['ops'][0]['t']
-            obs = {'y': dec_value(y)}
+            obs = {'y': dec_value(y), 'y_again': dec_value(y), 'mutated': []}
             if t == 'R':
                 obs.update(tt=dec_value(y), inv=dec_value(yt), t=dec_value(yt))
             if t == 'H':
                 obs['t'] = dec_value(y)  # HWPOperator is @diagonal: .T is the operator itself
-        elif kind == 'chain':
-            b, r, a = v
-            obs = {'before': dec_value(b), 'reduced': dec_ops(r), 'after': dec_value(a)}
+        elif kind in ('chain', 'factory'):
+            obs = dec_step(v[0])
+            obs['mutated'] = []
         else:
-            created, (b, r, a) = v
-            obs = {'before': dec_value(b), 'reduced': dec_ops(r), 'after': dec_value(a), 'created': [dec_op(o) for o in created]}
+            obs = {'steps': [dec_step(s) for s in v], 'mutated': []}
         return snap(obs, unfloat(case.get('_raw')), case['tol'])
 
     def comparable(self, case, obs):
+        def strip(d):
+            return {k: v for k, v in d.items() if k not in ('reduce_error', 'reduce_error2')}
+
         if isinstance(obs, dict):
-            return {k: v for k, v in obs.items() if k != 'reduce_error'}
+            obs = strip(obs)
+            if isinstance(obs.get('steps'), list):
+                obs['steps'] = [strip(s) if isinstance(s, dict) else s for s in obs['steps']]
         return obs
 
     def nontrivial(self, case, obs):
@@ -616,7 +904,10 @@ class Check(PropertyCheck):
             return False
         if case['kind'] == 'mv':
             return case['ops'][0]['t'] != 'H' or case['stokes'] != 'I'
-        return obs.get('reduced') is not None and len(obs['reduced']) != len(case.get('ops', [None]))
+        steps = case_steps(case)
+        res = obs.get('steps') if case['kind'] == 'seq' else [obs]
+        return any(isinstance(r, dict) and r.get('reduced') is not None and len(r['reduced']) != len(step_ops(st))
+                   for st, r in zip(steps, res or []))
 
     def finding_key(self, case, obs):
         return case.get('key')
@@ -634,7 +925,13 @@ class Check(PropertyCheck):
                 'words of length <= 4 (thorough: <= 5) over {R(a), R(b).T, HWP} with an optional polariser in front, per Stokes kind '
                 '(quick: a seeded quarter of the length-4 words on I and IQUV), '
                 'with seeded angle arrays / shared rotation objects, plus same-object patterns, sampled longer chains, '
-                'non-composable chains; the three factories; a float32 subset.  Distinct by canonical JSON of the case')
+                'non-composable chains; the three factories; a float32 subset.  Angle operands are given as jax arrays, NumPy '
+                'arrays (mutable) or Python floats (scalars), distinct rotation objects may hold ONE angle operand; every word of '
+                'length <= 2 (thorough <= 3) is also run with all-NumPy operands, distinct and aliased, and with Python floats.  '
+                'Sequences: 2-5 chains / factory calls over a shared pool of rotation objects and angle operands (all 16 pairs of '
+                '2-chains over two objects, chain+factory and factory+factory on one NumPy operand, plus sampled).  Every chain / '
+                'factory / sequence is observed for purity (unreduced value and stored angles before and after reduce(), reduce() twice, '
+                'bits of every angle operand).  Distinct by canonical JSON of the case')
 
     # ------------------------------------------------------------------------------------------
     def oracle(self, case, obs):
@@ -657,30 +954,63 @@ class Check(PropertyCheck):
                     return f'rotation .T.T.mv(x) = {o["tt"]} differs from the rotation = {exp}'
             if d['t'] == 'H' and not close_value(o['t'], exp, tol):
                 return f'HWP.T.mv(x) = {o["t"]} differs from the (symmetric) HWP matrix applied to x = {exp}'
+            if not close_value(o['y_again'], exp, tol):
+                return f'{d["t"]}.mv(x) evaluated a second time = {o["y_again"]} differs from its Mueller matrix applied to x = {exp}'
+            if o.get('mutated'):
+                return f'angle arrays modified in place by mv / .T / .I: {o["mutated"]}'
             return None
-        if kind == 'chain':
-            ops = case['ops']
-            what = 'chain ' + case.get('pattern', '')
+        if kind == 'seq':
+            res = o.get('steps') or []
+            steps = case['steps']
+            if len(res) != len(steps):
+                return f'no observation of the steps: {o!r}'
+            for k, (st, r) in enumerate(zip(steps, res)):
+                msg = self.step_oracle(f'step {k} of {len(steps)} ({step_name(st)})', st, r, case)
+                if msg:
+                    return msg
         else:
-            which, ang = case['which'], case['ang']
-            R = {'t': 'R', 'id': 1, 'ang': ang}
-            if which == 'hwp':
-                ops = [{'t': 'H'}] if ang is None else [dict(R, t='RT'), {'t': 'H'}, R]
-            elif which == 'pol':
-                ops = [{'t': 'P'}] if ang is None else [{'t': 'P'}, R]
-            else:
-                ops = [R]
-            what = f'{which}.create'
-            if [e[0] for e in o.get('created', [])] != [TAGS[d['t']] for d in ops]:
-                return f'{what} built {[e[0] for e in o.get("created", [])]}, expected the product {[d["t"] for d in ops]}'
+            (st,) = case_steps(case)
+            msg = self.step_oracle(step_name(st) if kind == 'factory' else 'chain ' + case.get('pattern', ''), st, o, case)
+            if msg:
+                return msg
+        if o.get('mutated'):
+            return (f'angle arrays modified in place by mv / reduce() / the factories (bitwise different from their state at '
+                    f'construction): {o["mutated"]}')
+        return None
+
+    def step_oracle(self, what, step, o, case):
+        """The property on one chain / factory: value = product of the Mueller matrices, before and after
+        reduction - where `after` means every evaluation made after a reduce() was called: of the reduced
+        operator, of the UNREDUCED operator, of a second reduce(), with the operands' stored angles unchanged."""
+        tol = case['tol']
+        ops = step_ops(step)
+        eexp = expected_expr(ops)
+        if not close_expr(o.get('expr'), eexp, tol):
+            return f'{what}: built {brief(o.get("expr"))}, expected the product {brief(eexp)}'
         exp = np_expected(ops, case['stokes'], case['shape'], case['x'])
-        if exp is None:
-            return None  # not composable: outside the property's domain
-        if not close_value(o['before'], exp, tol):
-            return f'{what}: mv(x) = {o["before"]} differs from the product of the Mueller matrices applied to x = {exp}'
-        if o.get('reduced') is None:
-            return f'{what}: reduce() raised {o.get("reduce_error")}'
-        if not close_value(o['after'], exp, tol):
-            return (f'{what}: after reduce() (-> {[e[:3] for e in o["reduced"]]}) mv(x) = {o["after"]} differs from the '
-                    f'product of the Mueller matrices applied to x = {exp}')
+        if exp is not None:  # else not composable: values are outside the property's domain (purity is not)
+            if not close_value(o['before'], exp, tol):
+                return f'{what}: mv(x) = {o["before"]} differs from the product of the Mueller matrices applied to x = {exp}'
+            if o.get('reduced') is None:
+                return f'{what}: reduce() raised {o.get("reduce_error")}'
+            if not close_value(o['after'], exp, tol):
+                return (f'{what}: after reduce() (-> {[e[:3] for e in o["reduced"]]}) mv(x) = {o["after"]} differs from the '
+                        f'product of the Mueller matrices applied to x = {exp}')
+        if not close_expr(o.get('expr_again'), eexp, tol):
+            return (f'{what}: after the reductions the UNREDUCED operator holds {brief(o.get("expr_again"))}; it was built as '
+                    f'{brief(eexp)} (reduce() modified its operands)')
+        if exp is not None:
+            if not close_value(o['again'], exp, tol):
+                return (f'{what}: the UNREDUCED operator evaluated after reduce() was called gives mv(x) = {o["again"]}, '
+                        f'not the product of the Mueller matrices applied to x = {exp} (it gave {o["before"]} before)')
+            if o.get('reduced2') is None:
+                return f'{what}: the second reduce() raised {o.get("reduce_error2")}'
+            if not close_value(o['after2'], exp, tol):
+                return (f'{what}: a second reduce() (-> {brief(o["reduced2"])}, the first gave {brief(o["reduced"])}) has '
+                        f'mv(x) = {o["after2"]}, not the product of the Mueller matrices applied to x = {exp}')
+            if not close_value(o['after1_again'], exp, tol):
+                return (f'{what}: the operator returned by the first reduce(), evaluated again after later reductions, gives '
+                        f'mv(x) = {o["after1_again"]}, not {exp} (it gave {o["after"]} at first)')
+        if not close_expr(o.get('reduced2'), o.get('reduced'), tol):
+            return f'{what}: reduce() called twice gives {brief(o.get("reduced"))} then {brief(o.get("reduced2"))}'
         return None
